@@ -97,8 +97,13 @@ impl<T: Ord> MemoryBoundedQueue<T> {
     pub fn push(&self, item: T, size_bytes: usize) -> Result<(), PushError> {
         let mut inner = self.inner.lock().unwrap();
 
-        // Wait while queue would be too full
-        while inner.current_size + size_bytes > self.capacity_bytes && !inner.closed {
+        // Wait while queue would be too full. An item is always admitted into a queue that holds no
+        // bytes: waiting there cannot end (no pull can make more room), so an item larger than the
+        // whole capacity used to block push forever.
+        while inner.current_size > 0
+            && inner.current_size + size_bytes > self.capacity_bytes
+            && !inner.closed
+        {
             inner = self.not_full.wait(inner).unwrap();
         }
 
